@@ -42,6 +42,18 @@ def tr_secrets(log):
     return info
 
 
+def tr_ctapapi(log):
+    """regenerate Generated/CtapApi.lean from ctap2.rs and the three authenticator method files"""
+    import importlib.util, os
+    here = os.path.dirname(os.path.abspath(__file__))
+    spec = importlib.util.spec_from_file_location("ctapapi_tr", os.path.join(here, "..", "..", "translate", "ctapapi.py"))
+    m = importlib.util.module_from_spec(spec)
+    spec.loader.exec_module(m)
+    info = m.main()
+    log.write("translator ctapapi: %s\n" % info)
+    return info
+
+
 def tr_ctap(log):
     """regenerate Generated/Ctap.lean from /repo/passkey-types/src/ctap2/*.rs"""
     import importlib.util, os
@@ -77,6 +89,22 @@ U2F_TRUSTED = COMMON_TRUSTED + [
 ]
 
 PROPS = {
+    "C18": {
+        "modules": ["PasskeyVerif.Props.C18"],
+        "props_files": ["PasskeyVerif/Props/C18.lean"],
+        "translators": [tr_ctapapi, tr_flags],
+        "harness": [["gen", "C18"]],
+        "technique": "Lean 4 theorem (decide) over forwarding facts regenerated from the Rust sources on every run, under a small model of Rust method lookup; differential correspondence: every operation run through <Authenticator as Ctap2Api> in a worker process with a time limit and compared with the Lean model of the direct methods",
+        "trusted": AUTH_TRUSTED + [
+            "translator translate/ctapapi.py (trait and impl receivers, the single forwarding call of each body, receivers and impl bounds of the inherent methods); a body that is not a single forwarding call is a translator error = violation",
+            "reachesInherent (Props/C18.lean) models the part of Rust's method lookup that matters here: path calls prefer inherent associated functions; method-call syntax takes the inherent candidate only if its receiver type is met at the first probing step and its impl bounds hold, otherwise the trait method itself",
+            "the worker process runner of the harness (c18.rs): a worker killed by a signal or by the 20 s limit is reported as the last announced operation not returning",
+        ],
+        "assumptions": ["equality with the direct methods is equality with their Lean model, which C02-C09's correspondence ties to the direct methods on the same kinds of requests"],
+        "level_text": "Kernel-checked over facts regenerated from ctap2.rs and the authenticator method files: the impl defines exactly get_info, make_credential and get_assertion, each body is a single forwarding call that passes its parameters unchanged, and under the lookup model each call reaches the inherent method of the same name (the pre-repair forwarding of get_assertion is rejected by the same model). That the calls terminate and give the direct methods' results and store effects is checked on the real code: 60 (thorough 400) cases of getInfo / makeCredential / getAssertion requests as for C02-C05 (successful and failing, all store kinds, six user-validation behaviours, store faults) are run through the trait in worker processes and compared byte for byte with the model of the direct methods.",
+        "level_note": "Trusted: Lean kernel; axioms propext/Classical.choice/Quot.sound; the translator; the lookup model; the hand model of the direct methods; the worker runner. Fixed defect: get_assertion through the trait recursed until the stack overflowed (fix commit 98388c5).",
+        "rule": "60 (thorough 400) cases, each in its own worker process: get_info, then 2-4 make_credential / get_assertion requests (exclude / allow lists absent, empty, hits, misses; rk/up/uv/pinAuth variations; unsupported algorithms; PRF requests; store fault at the second call 1 in 8) over 6 stores (contract store x3 capabilities, map, slot, Arc<Mutex<map>>) with 0-3 stored credentials and 6 user-validation behaviours, then get_info again.",
+    },
     "C17": {
         "modules": ["PasskeyVerif.Props.C17"],
         "props_files": ["PasskeyVerif/Props/C17.lean"],
